@@ -19,9 +19,11 @@ CheckScc(e) ==
      ELSE IF \E i \in 1..Len(cs) : Len(e.comps[i]) # Cardinality(cs[i]) \/ cs[i] = {} THEN "Scc.component_with_repeated_or_no_node"
      ELSE IF \E i, j \in 1..Len(cs) : i < j /\ cs[i] \cap cs[j] # {} THEN "Scc.node_in_two_components"
      ELSE IF ~(Given \subseteq U) THEN "Scc.node_missing"
-     ELSE IF ~(U \subseteq ReachFrom(E, Given)) THEN "Scc.unknown_node"
-     ELSE IF \E i \in 1..Len(cs) : \E u \in cs[i] : cs[i] # SccOf(T.m, E, u) THEN "Scc.component_is_not_a_mutual_reachability_class"
-     ELSE IF ~SinksFirst(E, cs) THEN "Scc.not_sinks_first"
+     \* the graph is the one induced by the listed nodes (what topological_sort has always used): neighbours outside the node set
+     \* are not nodes, and reachability through them does not count
+     ELSE IF ~(U \subseteq Given) THEN "Scc.node_outside_the_node_set"
+     ELSE IF \E i \in 1..Len(cs) : \E u \in cs[i] : cs[i] # SccOf(T.m, Inner, u) THEN "Scc.component_is_not_a_mutual_reachability_class"
+     ELSE IF ~SinksFirst(Inner, cs) THEN "Scc.not_sinks_first"
      ELSE ""
 CheckTopo(e) ==
   IF e.status = "INFEASIBLE" THEN (IF Acyclic(T.n, Inner) THEN "Topo.infeasible_but_acyclic" ELSE "")
@@ -33,7 +35,7 @@ CheckCondense(e) ==
   LET w == CheckScc(e)
       cs == [i \in 1..Len(e.comps) |-> ToSet(e.comps[i])]
       adjm == [i \in 1..Len(cs) |-> ToSet(e.adj[i])]
-      Joined(i, j) == \E u \in cs[i], v \in cs[j] : HasEdge(E, u, v)
+      Joined(i, j) == \E u \in cs[i], v \in cs[j] : HasEdge(Inner, u, v)
   IN IF w # "" /\ w # "Scc.not_sinks_first" THEN w
      ELSE IF \E i \in 1..Len(cs) : Len(e.adj[i]) # Cardinality(adjm[i]) THEN "Condense.duplicate_successor"
      ELSE IF \E i, j \in 1..Len(cs) : (j \in adjm[i]) # (i # j /\ Joined(i, j)) THEN "Condense.edge_set_wrong"
